@@ -33,11 +33,11 @@ INVS = ["TypeOK", "BoundsExported", "RightBucket", "CountsSum", "SumOK", "CumOK"
 MC = {"MCBuckets.tla": "---- MODULE MCBuckets ----\nEXTENDS Buckets\nMCBounds == {-2, -1, 0, 1, 2, 4}\n====\n"}
 
 
-def cfg(mindecl, maxdecl, maxobs, devs=(), emit=True, invs=INVS):
+def cfg(mindecl, maxdecl, maxobs, devs=(), emit=True, invs=INVS, props=True):
     c = {"MinDecl": mindecl, "MaxDecl": maxdecl, "MaxObs": maxobs, "EmitCases": emit}
     for d in DEVS:
         c[d] = d in devs
-    t = vlib.cfg_text(spec="Spec", constants=c, invariants=list(invs), properties=["OneBucketPerObservation"])
+    t = vlib.cfg_text(spec="Spec", constants=c, invariants=list(invs), properties=["OneBucketPerObservation"] if props else [])
     return t.replace("CONSTANTS\n", "CONSTANTS\n  BoundSet <- MCBounds\n")
 
 
@@ -85,7 +85,7 @@ def stage(ctx, binary, name, mindecl, maxdecl, maxobs, devs, seen, explained):
         def sink(c):
             if key(c) in want:
                 model_dev[key(c)] = c
-        vlib.tlc(ctx, "MCBuckets", cfg(mindecl, maxdecl, maxobs, devs=devs, invs=["Emit"]), label="Buckets-%s-devs" % name,
+        vlib.tlc(ctx, "MCBuckets", cfg(mindecl, maxdecl, maxobs, devs=devs, invs=["Emit"], props=False), label="Buckets-%s-devs" % name,
                  timeout=2400, case_sink=sink, extra_files=MC)
     for c, y in bad2:
         d = model_dev.get(key(c))
@@ -117,13 +117,14 @@ def run(ctx):
         if r.zero_cov:
             raise vlib.InfraError("actions never taken in Buckets.tla: %s" % r.zero_cov)
     else:
-        stage(ctx, binary, "decl2-4-obs3", 2, 4, 3, devs, seen, explained)
+        stage(ctx, binary, "decl2-4-obs2", 2, 4, 2, devs, seen, explained)
     for d in devs:
         ex = explained.get(d)
         if not ex:
             continue
         f = vlib.open_finding(ctx.prop, d)
-        c, y = min(ex, key=lambda e: (len(e[0]["decl"]), json.dumps(e[0]["obs"])))
+        # smallest example; for the NaN deviation prefer a declaration the other deviation does not touch
+        c, y = min(ex, key=lambda e: (e[0]["decl"][0] <= 0 and d == "DEV_NaNInNoBucket", len(e[0]["decl"]), len(e[0]["obs"]), json.dumps(e[0]["obs"])))
         ctx.known_finding(d, "%s; %d replayed behaviours leave the corrected design exactly as this deviation predicts, e.g. "
                           "`buckets %s` observing %s: %s (recorded witness: %s)" % (
                               f["what"], len(ex), ", ".join(str(b) for b in c["decl"]), c["obs"], y["why"], json.dumps(f["witness"])))
@@ -132,7 +133,7 @@ def run(ctx):
     ctx.cov["rule"] = ("every (declaration, observation sequence) behaviour of Buckets.tla within the bounds is replayed through the real "
                        "compiler and VM; non-trivial = contains an observation exactly on a boundary, an infinity or NaN, or one at or "
                        "below a non-positive first boundary")
-    ctx.cov["constants"] = {"BoundSet": [-2, -1, 0, 1, 2, 4], "decl_len": "2-4", "MaxObs": 4 if ctx.thorough else 3,
+    ctx.cov["constants"] = {"BoundSet": [-2, -1, 0, 1, 2, 4], "decl_len": "2-4", "MaxObs": "4 (decl 2-3), 3 (decl 4)" if ctx.thorough else 2,
                             "values": "each boundary -1/2, +0, +1/2; first boundary - 3; -Inf; +Inf; NaN"}
     ctx.assumptions += [
         "finite model values are multiples of 1/2 written as decimal text on the log line (float($2) parses them exactly); 9999/1000/-1000 stand for NaN/+Inf/-Inf",
